@@ -3,6 +3,8 @@ import algebra
 
 
 def run(v, tier, seed, replay):
+    if replay:
+        return algebra.replay(v, replay, 1024)
     res8 = list(range(0, 8))
     wide = [-3, -1, 0, 1, 2, 3, 4, 5, 6, 7, 9, 12]
     if tier == "quick":
